@@ -276,6 +276,21 @@ def check_slow(ctx, case):
     monitors.reset_all()
     cfg = case.get("config") or {}
     calc = Calculator(_config=dict(cfg)) if cfg else Calculator()
+    # the limits in force must be this calculator's own (here: no minimum velocity)
+    from vf.checks.c04 import REASONS, violated
+    eff = dict(DEFAULT_CFG, **cfg)
+    with monitors.quiet():
+        try:
+            calc.fire(build.shot(case["shot"]), Distance.Foot(case["range_ft"]), Distance.Foot(case["range_ft"]))
+        except pb.RangeError as e:
+            ctx.count("limits_compared")
+            last = e.incomplete_trajectory[-1]
+            _, poss = violated(last, 0.0, (eff["cMinimumVelocity"], eff["cMaximumDrop"], eff["cMinimumAltitude"]))
+            rn = next(k for k, v in REASONS.items() if v == e.reason)
+            if rn not in poss:
+                ctx.violation("limit-not-own", f"stopped for '{e.reason}' but this calculator's limits (vmin {eff['cMinimumVelocity']}, drop "
+                                               f"{eff['cMaximumDrop']}, altitude {eff['cMinimumAltitude']}) are not violated by the last row "
+                                               f"(v={last.velocity >> Velocity.FPS:.2f} fps, y={last.height >> Distance.Foot:.2f} ft)", case)
     check_step(ctx, calc, cfg.get("max_calc_step_size_feet", 0.5), case, spec=case["shot"], range_ft=case["range_ft"],
                gravity=abs(cfg.get("cGravityConstant", -32.17405)))
     ctx.case(case, nontrivial=True)
@@ -516,7 +531,11 @@ def gen_settings(rng):
         if rng.random() < 0.45:
             cfg[k] = rng.choice(vals)
     s = gen.shot(rng, custom=0.0, cant=False, look=False, wind_n=0, twist=False)
-    s["rel_deg"] = rng.choice([0.0, 5.0, 30.0])
+    s["rel_deg"] = rng.choice([0.0, 5.0, 30.0, 85.0])
+    if s["rel_deg"] > 80:
+        s["mv_fps"] = min(s["mv_fps"], 900.0)     # a lob that slows below the default minimum velocity near its apex
+        if "cMaximumDrop" in cfg:
+            cfg["cMaximumDrop"] = -200.0
     return {"kind": "settings", "config": cfg, "order": rng.choice([["A", "B"], ["B", "A"]]), "shot": s,
             "range_ft": rng.choice([3000.0, 30000.0])}
 
